@@ -128,6 +128,8 @@ def run_witness(w, tier='quick'):
 
 def search(pid, oblig, tier, seed):
     """look for a concrete failing input for a failed obligation. Returns a dict or None."""
+    if os.environ.get('VX_NO_WITNESS') == '1':
+        return {'found': False, 'reason': 'witness search disabled (VX_NO_WITNESS)'}
     try:
         from vx import probes
         fn = probes.PROBES.get(pid)
